@@ -82,7 +82,7 @@ func (k *K) StartPeer(n *Node, opts ...PeerOpt) (*Peer, error) {
 	if err != nil {
 		return nil, err
 	}
-	p := &Peer{Node: n, Inc: inc, KS: ks, Cache: inc.NewCache(), Dir: fmt.Sprintf("/sim/n%d", n.Idx), Stores: map[string]iface.Store{}}
+	p := &Peer{Node: n, Inc: inc, KS: ks, Cache: inc.NewCache(), Dir: fmt.Sprintf("/sim/n%d", n.Origin), Stores: map[string]iface.Store{}}
 	o := &orbitdb.NewOrbitDBOptions{Directory: &p.Dir, Keystore: ks, Cache: p.Cache}
 	for _, f := range opts {
 		f(p, o)
